@@ -69,6 +69,12 @@ def concretize(case, variant):
     if case["kind"] == "truth":
         form = ("lit", "var")[variant % 2]
         return wrap(operand(case["v"], form, "x", data), case["carrier"]), data
+    if case["kind"] == "group":
+        form = ("lit", "var")[variant % 2]
+        a, b, c = (operand(case[k], form, k, data) for k in ("a", "b", "c"))
+        grp = f"({a} {case['lop']} {b})"
+        cond = f"{grp} {case['op']} {c}" if case["side"] == "l" else f"{c} {case['op']} {grp}"
+        return wrap(cond, ["if", "ternary", "unless", "elsif"][(variant // 2) % 4]), data
     toks = []
     for t in case["tokens"]:
         if t in ("a", "b", "c"):
@@ -124,6 +130,10 @@ def run(tier: str) -> int:
         trees = rnd.sample(trees, 300000)
     jobs = []
     nvar = 2 if tier == "quick" else 4
+    groups = [c for c in others if c["kind"] == "group"]
+    others = [c for c in others if c["kind"] != "group"]
+    for i, c in enumerate(groups):
+        jobs.append((c, i % 8))
     for c in others:
         for v in range(nvar):
             jobs.append((c, v))
@@ -144,6 +154,8 @@ def run(tier: str) -> int:
                     sig = f"cell:{case['op']}:{case['a']}:{case['b']}"
                 elif case["kind"] == "truth":
                     sig = f"truth:{case['v']}:{case['carrier']}"
+                elif case["kind"] == "group":
+                    sig = f"group:{case['lop']}:{case['a']}:{case['b']}:{case['op']}:{case['c']}:{case['side']}"
                 else:
                     sig = "tree:" + " ".join(case["tokens"])
                 ck.fail(f"condition selects {o}, Values/Expr.tla require {exp}",
